@@ -69,7 +69,9 @@ var tokenCases = []string{"(/r)//child", "(/*)//child", "(/r)[1]//child", "(/r)/
 	"child :: a", "a / b", "a // b", "a [ 1 ]", "@ id", "( 1 )", "((1))", "(((//a)))", "1 +", "+1", "1 1", "a b", "//", "///a", "a//", "a/", "[1]", "a[]", "a[1", "a]", "(1", "1)", "count(", "count(1,)", "$", "$ n", "'abc", "\"abc", "!", "1 ! = 2", "a::b", "child::", "::a", "@", "@@a", "a@b",
 	"1.5", ".5", "5.", "1.5.2", "1..2", "1e3", "0x10", "a:b:c", "p:", ":a", "*:*", "p:*:a", "#obj", "#arr/*", "a#", "//#obj/a", "é", "//é/@é", "a b", "1 div", "div", "mod", "and", "or", "//div", "a div b", "div div div", "and and and", "_a", "//_a", "a_b",
 	"child:self", "child:child", "self:child", "self:self", "text:text", "text:self", "child:text", "text:child", "child::child:self", "self::child:self", "child::text:self", "child:*", "text:*", "child:self | text:self", "child:self + 1", "child:a", "p:self", "p:child", "q:text", "child:div", "@child:self",
-	"string-length('a b')", "string-length('a  b')", "string-length('a\tb')", "string-length( 'a b' )", "concat('x  y', '|', 'x y')", "concat('x y', '|', 'x  y')", "'  ' = ' '", "\"a\nb\" = 'a b'"}
+	"string-length('a b')", "string-length('a  b')", "string-length('a\tb')", "string-length( 'a b' )", "concat('x  y', '|', 'x y')", "concat('x y', '|', 'x  y')", "'  ' = ' '", "\"a\nb\" = 'a b'",
+	// literals whose content begins or ends with the OTHER kind of quote: the value is everything between the delimiters
+	"\"'\"", "'\"'", "\"''\"", "string-length(\"'\")", "string-length('\"\"')", "concat(\"'\", 'x', \"'\")", "\"'x\"", "'x\"'", "\"it's'\" = \"it's\"", "string-length(\"'a'\")", "'\"' = \"'\"", "translate(\"'a'\", \"'\", '\"')"}
 
 func famC08(rn *Runner) {
 	ndocs := rn.Scale(6, 40)
